@@ -175,9 +175,11 @@ pub fn gen_object(rng: &mut Rng, idx: usize, default_oti: &OtiSpec, o: &GenOpts)
         _ => None,
     };
     if o.sources && ob.cenc == CencSpec::Null && rng.chance(1, 4) {
-        ob.source = match rng.below(4) {
+        ob.source = match rng.below(6) {
             0 => SourceSpec::Cursor,
             1 => SourceSpec::Chunked(vec![1 << 20]),
+            3 => SourceSpec::PathRam,
+            4 => SourceSpec::PathNoRam,
             // a stream handed over at a non-zero position, with and without MD5 (the MD5 computation rewinds it)
             2 if !ob.data.is_empty() => {
                 ob.md5 = rng.chance(1, 2);
